@@ -49,8 +49,11 @@ func evolveOptions(pop int) *neat.Options {
 	o.NodeActivatorsProb = nil
 	for t := neatmath.SigmoidPlainActivation; t <= neatmath.StepActivation; t++ {
 		o.NodeActivators = append(o.NodeActivators, t)
-		o.NodeActivatorsProb = append(o.NodeActivatorsProb, 1.0/20)
+		o.NodeActivatorsProb = append(o.NodeActivatorsProb, 1.0/21)
 	}
+	// and a type the user registered (model.go, userScalarType)
+	o.NodeActivators = append(o.NodeActivators, userScalarType)
+	o.NodeActivatorsProb = append(o.NodeActivatorsProb, 1.0/21)
 	return o
 }
 
@@ -192,6 +195,9 @@ func evolveCmd(args []string) int {
 			if e > 0 {
 				for _, o := range pop.Organisms {
 					o.Fitness = 0.01 + 10*rng.Float64()
+					// some organisms solve the task: Species.Write marks them in the by-species file
+					o.IsWinner = o.Fitness > 9.0
+					o.Error = 10 - o.Fitness
 				}
 				if err := ex.NextEpoch(ctx, e, pop); err != nil {
 					fmt.Printf("vh_codec evolve: run %d epoch %d: %v\n", run, e, err)
